@@ -1299,6 +1299,10 @@ func (ctx Ctx) exprSpecial(e ast.Expr, isSpecial bool) coq.Expr {
 	case *ast.StarExpr:
 		return ctx.derefExpr(e.X)
 	case *ast.TypeAssertExpr:
+		if isSpecial {
+			// the assertion itself is dropped, so there is no ok to bind
+			ctx.unsupported(e, "type assertion with two results")
+		}
 		// TODO: do something with the type
 		return ctx.expr(e.X)
 	case *ast.FuncLit:
